@@ -347,6 +347,31 @@ func (pf *ParserFacts) constOperatorOfLiteral(s SlotStore) (string, bool) {
 				return constant.StringVal(k.Value), true
 			}
 		}
+		// a constructor that fixes the operator itself (previousIndex(x) = x - 1)
+		if callee := ins.Call.StaticCallee(); callee != nil {
+			op, n := "", 0
+			for _, b := range callee.Blocks {
+				for _, i2 := range b.Instrs {
+					st, ok := i2.(*ssa.Store)
+					if !ok {
+						continue
+					}
+					fa, ok := st.Addr.(*ssa.FieldAddr)
+					if !ok || structFieldName(fa.X.Type(), fa.Field) != "operator" {
+						continue
+					}
+					if v, isConst := constStrOrPhi(st.Val); isConst {
+						op = v
+						n++
+					} else {
+						return "", false
+					}
+				}
+			}
+			if n == 1 {
+				return op, true
+			}
+		}
 	}
 	return "", false
 }
@@ -2174,6 +2199,47 @@ func rootInterfaceValue(v ssa.Value) ssa.Value {
 // returnGuard: v is a result of a call of a parser function; on every successful return of
 // that function the returned value (when it is not nil) has passed one of the accepted tests
 // inside the function.
+// delegatedParam: rv is a node literal built in fn whose type is the type of one of its
+// children, and that child is a parameter of fn; the index of that parameter.
+func (pf *ParserFacts) delegatedParam(fn *ssa.Function, rv ssa.Value) (int, bool) {
+	mi, ok := rv.(*ssa.MakeInterface)
+	if !ok {
+		return 0, false
+	}
+	info, ok := pf.typeInfo[namedName(mi.X.Type())]
+	if !ok || info.kind != "delegate" {
+		return 0, false
+	}
+	u, ok := mi.X.(*ssa.UnOp)
+	if !ok {
+		return 0, false
+	}
+	lit, ok := u.X.(*ssa.Alloc)
+	if !ok {
+		return 0, false
+	}
+	for _, r := range *lit.Referrers() {
+		fa, ok := r.(*ssa.FieldAddr)
+		if !ok || structFieldName(fa.X.Type(), fa.Field) != info.field {
+			continue
+		}
+		for _, rr := range *fa.Referrers() {
+			st, ok := rr.(*ssa.Store)
+			if !ok {
+				continue
+			}
+			if p := paramOrigin(st.Val); p != nil {
+				for i, q := range fn.Params {
+					if q == p {
+						return i, true
+					}
+				}
+			}
+		}
+	}
+	return 0, false
+}
+
 func (pf *ParserFacts) returnGuard(v ssa.Value, depth int, accepted ...atomKind) (bool, string) {
 	if depth > 2 {
 		return false, ""
@@ -2211,6 +2277,38 @@ func (pf *ParserFacts) returnGuard(v ssa.Value, depth int, accepted ...atomKind)
 		}
 		if ok, _ := pf.returnGuard(rv, depth+1, accepted...); ok {
 			continue
+		}
+		// a node built here whose type is that of a child taken from a parameter (a constructor
+		// such as previousIndex(x) = x - 1): the argument of this call carries the requirement
+		if pi, ok := pf.delegatedParam(callee, rv); ok && pi < len(call.Call.Args) {
+			arg := call.Call.Args[pi]
+			caller := call.Parent()
+			okArg := true
+			for _, o := range pf.origins(arg, map[ssa.Value]bool{}) {
+				switch o.kind {
+				case "node":
+					dt, sl, known := pf.intrinsicType(o, 0)
+					fits := false
+					for _, a := range accepted {
+						if known && !sl && ((a == atomInt && dt == "int") || (a == atomBool && dt == "bool") || (a == atomString && dt == "string")) {
+							fits = true
+						}
+					}
+					if !fits {
+						okArg = false
+					}
+				case "value":
+					ps2 := SlotStore{Fn: caller, Node: "argument", Field: callee.Name(), Val: o.val, Instr: call}
+					if ok, _ := pf.guardedBy(ps2, o.val, accepted...); !ok {
+						okArg = false
+					}
+				default:
+					okArg = false
+				}
+			}
+			if okArg {
+				continue
+			}
 		}
 		return false, ""
 	}
